@@ -3,6 +3,7 @@ CONSTANTS
   AddrNegCountPanic = TRUE
   OfflineSigSkipped = FALSE
   Level = 0
+  ExtraBases <- ExtraGen
 VIEW view
 PROPERTIES NoPanic
 CHECK_DEADLOCK FALSE
